@@ -196,4 +196,20 @@ theorem genValue_objN (e : BEnv) (Γ : Ctx) (cfg : SerCfg) {m : XmlMeta} {var : 
     VarCore.isElement, VarCore.isWildcard, hf.isElem, Val.isArray, hty,
     bind, Except.bind, pure, Except.pure]
 
+/-- an instance of a proper subclass: `convert_xsi_type` passes the `xsi:type` of its class -/
+theorem genValue_objD (e : BEnv) (Γ : Ctx) (cfg : SerCfg) {m : XmlMeta} {var : XmlVar}
+    (hf : ElemFactsN m var) (ht : var.tokens = false) {c cls : ClassId} (fields : List (Str × Val))
+    (ns : Option Str) (hty : var.types = [.cls c]) (hcl : var.clazz = some c) (hne : cls ≠ c)
+    (hder : Γ.isDerived cls c = true) {mg : XmlMeta} (hfetch : Γ.fetch cls ns none = .ok mg) (f : Nat) :
+    genValue e Γ cfg (f + 3) (.obj cls fields) var ns =
+      genObj e Γ cfg f (.obj cls fields) ns (some var.qname) var.nillable
+        (realXsiType var.qname mg.targetQName) := by
+  have hbeq : (TypeRef.cls cls == TypeRef.cls c) = false := by
+    rw [beq_eq_false_iff_ne]; intro h; cases h; exact hne rfl
+  have hc : ([TypeRef.cls c].contains (TypeRef.cls cls)) = false := by
+    simp [List.contains, List.elem, hbeq]
+  simp [hne, genValue, genAnyType, genXsiElement, hf.mixed, ht, VarCore.isText, VarCore.isElements,
+    VarCore.isElement, VarCore.isWildcard, hf.isElem, Val.isArray, hty, hc, hcl, hder, hfetch,
+    bind, Except.bind, pure, Except.pure]
+
 end Proofs.C01
